@@ -422,7 +422,7 @@ fn gen_ex(r: &mut SplitMix64, b: B, depth: u32, next: &mut u32) -> Ex {
             let l = Box::new(gen_ex(r, b, depth - 1, next));
             match o {
                 8 | 9 => Ex::Bin(l, o, Box::new(Ex::Bin(Box::new(gen_ex(r, b, depth - 1, next)), 0, Box::new(gen_ex(r, b, depth - 1, next))))),
-                2 | 3 if r.chance(1, 2) => Ex::Bin(l, o, Box::new(Ex::Bin(Box::new(gen_ex(r, b, depth - 1, next)), 26, Box::new(gen_ex(r, b, 0, next))))),
+                2 | 3 | 30 | 31 if r.chance(1, 2) => Ex::Bin(l, o, Box::new(Ex::Bin(Box::new(gen_ex(r, b, depth - 1, next)), 26, Box::new(gen_ex(r, b, 0, next))))),
                 6 | 7 => { let n = 1 + r.below(3) as usize; let args: Vec<Ex> = (0..n).map(|_| gen_ex(r, b, depth - 1, next)).collect(); Ex::Bin(l, o, Box::new(if n == 1 { Ex::Node(3, args) } else { Ex::Node(0, args) })) }
                 4 | 5 if b == B::Mysql => { Ex::Bin(l, o, Box::new(Ex::Atom(3))) }
                 _ => Ex::Bin(l, o, Box::new(gen_ex(r, b, depth - 1, next))),
